@@ -11,7 +11,7 @@ import z3
 
 from pyvc.verify import Unit, Outcome
 from pyvc.interp import Loop, PyRaise
-from pyvc.values import SInt, SStr, SElem, SBool, SFloat, Obj, PList, PDict, PSet, PyClass, zi, zr, zs, zb, mk_bool, mk_int
+from pyvc.values import SInt, SStr, SElem, SBool, SFloat, Obj, PList, PDict, PSet, PyClass, zi, zr, zs, zb, mk_bool, mk_int, is_numlike
 from pyvc.runner import BoundedResult
 from .common import Vals, Stubs, StubFuncs, real_env, runtime_error, I, cls_name, date_abstractions
 
@@ -35,7 +35,7 @@ SKIP = {"FuncRun", "FuncBindNative", "FuncExecute", "FuncEval", "FuncParse", "Fu
         "FuncS", "FuncFileInput", "FuncFileOutput", "FuncFileCopy", "FuncFileDelete",
         "FuncFileExists", "FuncFileInfo", "FuncFileMove", "FuncListDir", "FuncMakeDir", "FuncGetEnv", "FuncPrint", "FuncPrintln",
         "FuncRead", "FuncReadall", "FuncReadln", "FuncProcessLines", "FuncClose", "FuncStrInput", "FuncStrOutput",
-        "FuncGetOutputString", "FuncLs", "FuncInfo", "FuncBody", "FuncLambda", "FuncRange", "FuncRandom", "FuncSetSeed",
+        "FuncGetOutputString", "FuncLs", "FuncInfo", "FuncBody", "FuncLambda", "FuncRange",
         "FuncExecuteShell", "FuncType", "FuncSprintf", "FuncGrep"}
 
 KINDS = ["absent", "null", "true", "false", "int", "decimal", "string", "date", "pattern", "list0", "list1", "list2", "listpair",
@@ -172,11 +172,15 @@ def units(w):
                 return make_value(V, F, it_, k, it_.fresh("cmp").replace("~", "_"))
             env = real_env(w, it, {"compare": F.func("compare", ["a", "b"], cmp_result),
                                    "identity": F.func("identity", ["obj"], lambda it_, vs: vs[0])})
+            # module invariant: the generator state `seed` is a number (initialised to a float by the module, set to an int by
+            # set_seed; re-established by every writer below)
+            it.global_overlay[("ckl.functions", "seed")] = SInt(z3.Int("seed0")) if it.path.choose(2) == 0 else SFloat(z3.Real("seed0f"))
             return [f, args, env, V.pos(it, "cpos")], {}, {"la": la}
 
         def post(it, c, o):
             errval_ok(it, o)
             it.check("post:value-or-language-error", o.kind in ("return", "raise"))
+            it.check("inv:the-generator-state-stays-a-number", is_numlike(it.global_overlay.get(("ckl.functions", "seed"))))
         U.append(Unit(f"functions.py::{cname}.execute", setup, post, name=f"functions.py::{cname}.execute[all kinds]",
                       abstractions=DATE_ABS, config={"max_unroll": 12, "max_depth": 40}, replay=replay_native(cname),
                       prepare=install_streams))
